@@ -61,8 +61,12 @@ class Outcome:
 class Part:
     def __init__(self, name, run, strategy=None, enumerate=None,
                  examples=None, floors=None, shrink_budget=None, max_rounds=6,
-                 per_shard_min=8):
+                 per_shard_min=8, case_timeout=None, shrink_wall=240.0):
         self.name = name
+        # case_timeout: seconds after which one case is given up as inconclusive (never a violation);
+        # shrink_wall: seconds after the first failure of a round after which shrinking stops (the verdict is settled by then)
+        self.case_timeout = case_timeout
+        self.shrink_wall = shrink_wall
         self.run = run
         self.strategy = strategy
         self.enumerate = enumerate
@@ -140,6 +144,7 @@ class Stats:
         self.excluded_known = {}
         self.excluded_bucket = 0
         self.invalid = 0
+        self.slowest = 0.0
 
     def record(self, case, outcome, hashed=True, max_samples=3):
         self.evaluations += 1
@@ -162,6 +167,7 @@ class Stats:
             'samples': self.samples,
             'excluded_known': self.excluded_known,
             'excluded_bucket': self.excluded_bucket,
+            'slowest': self.slowest,
         }
 
 
@@ -169,10 +175,45 @@ def _case_size(case):
     return len(json.dumps(case, default=str))
 
 
+class _CaseTimeout(BaseException):
+    pass
+
+
+_TIMEOUTS = [0]
+
+
+def _run_with_timeout(part, case):
+    import signal
+
+    def on_alarm(signum, frame):
+        raise _CaseTimeout()
+    previous = signal.signal(signal.SIGALRM, on_alarm)
+    # after three cases given up in this process the remaining ones get a tenth of the time: a tree on which cases hang
+    # must not keep the check running for hours
+    limit = part.case_timeout if _TIMEOUTS[0] < 3 else max(5.0, part.case_timeout / 10.0)
+    signal.setitimer(signal.ITIMER_REAL, limit)
+    try:
+        return part.run(case)
+    except _CaseTimeout:
+        _TIMEOUTS[0] += 1
+        raise
+    finally:
+        signal.setitimer(signal.ITIMER_REAL, 0)
+        signal.signal(signal.SIGALRM, previous)
+
+
 def _execute(module, part, case, known_open, excluded, stats, hashed=True):
     """Run one case.  Returns None if fine/excluded, else a Violation."""
+    t0 = time.time()
     try:
-        outcome = part.run(case)
+        if part.case_timeout:
+            outcome = _run_with_timeout(part, case)
+        else:
+            outcome = part.run(case)
+    except _CaseTimeout:
+        stats.record(case, Outcome(['inconclusive:case-exceeded-%ds' % part.case_timeout], False), hashed=hashed)
+        stats.slowest = max(stats.slowest, time.time() - t0)
+        return None
     except Violation as v:
         viol = v
     except HarnessError:
@@ -188,6 +229,7 @@ def _execute(module, part, case, known_open, excluded, stats, hashed=True):
         if outcome is None:
             outcome = Outcome()
         stats.record(case, outcome, hashed=hashed)
+        stats.slowest = max(stats.slowest, time.time() - t0)
         return None
     stats.evaluations += 1
     kid = match_known(module, known_open, part.name, case, viol)
@@ -213,19 +255,20 @@ def run_hypothesis_part(module, part, tier, seed, n_examples, known_open):
     strategy = part.strategy(tier)
     shrink_budget = part.shrink_budget[tier]
     while remaining > 0 and rounds < part.max_rounds:
-        state = {'count': 0, 'best': None, 'since_fail': None}
+        state = {'count': 0, 'best': None, 'since_fail': None, 'fail_time': None}
 
         def body(case):
             state['count'] += 1
             if state['since_fail'] is not None:
                 state['since_fail'] += 1
-                if state['since_fail'] > shrink_budget:
+                if state['since_fail'] > shrink_budget or time.time() - state['fail_time'] > part.shrink_wall:
                     raise _AbortShrink()
             viol = _execute(module, part, case, known_open, excluded, stats)
             if viol is None:
                 return
             if state['since_fail'] is None:
                 state['since_fail'] = 0
+                state['fail_time'] = time.time()
             size = _case_size(case)
             if state['best'] is None or size <= state['best'][2]:
                 state['best'] = (viol, case, size)
